@@ -57,6 +57,30 @@ func buildHistCalls(filesDir string) ([]histCall, [][]byte) {
 		"96x128": noiseNRGBA(rng, 96, 128, 0), "80x64": noiseNRGBA(rng, 80, 64, 0), "80x64b": gradientAlpha(rng, 80, 64),
 		"pal": palettedNRGBA(rng, 20, 20, 7), "64x64": noiseNRGBA(rng, 64, 64, 0), "64x80a": gradientAlpha(rng, 64, 80),
 	}
+	// lossless pictures whose coding depends on the colour cache and on backward references: a few hundred colours in
+	// runs, photo-like texture, and a second picture of the same size with other content
+	few := image.NewNRGBA(image.Rect(0, 0, 128, 96))
+	other := image.NewNRGBA(image.Rect(0, 0, 128, 96))
+	photoLike := image.NewNRGBA(image.Rect(0, 0, 96, 96))
+	var cols [300][3]uint8
+	for i := range cols {
+		cols[i] = [3]uint8{uint8(rng.Intn(256)), uint8(rng.Intn(256)), uint8(rng.Intn(256))}
+	}
+	for y := 0; y < 96; y++ {
+		for x := 0; x < 128; x++ {
+			c := cols[(x/3*7+y/2*13+rng.Intn(2))%len(cols)]
+			i := few.PixOffset(x, y)
+			few.Pix[i], few.Pix[i+1], few.Pix[i+2], few.Pix[i+3] = c[0], c[1], c[2], 255
+			c = cols[(x/2*5+y*3+rng.Intn(3))%97]
+			other.Pix[i], other.Pix[i+1], other.Pix[i+2], other.Pix[i+3] = c[2], c[0], c[1], 255
+			if x < 96 {
+				j := photoLike.PixOffset(x, y)
+				photoLike.Pix[j], photoLike.Pix[j+1], photoLike.Pix[j+2], photoLike.Pix[j+3] = uint8(x*2+rng.Intn(6)), uint8(y*2+rng.Intn(6)), uint8((x+y)+rng.Intn(9)), 255
+			}
+		}
+	}
+	img["128x96few"], img["128x96other"], img["96x96photo"] = few, other, photoLike
+	img["64x64noise"] = noiseNRGBA(rng, 64, 64, 0) // every pixel another colour: the colour-cache estimate has no true hits
 	// smooth content so that lossless analysis has real choices
 	for y := 0; y < 64; y++ {
 		for x := 0; x < 64; x++ {
@@ -81,14 +105,27 @@ func buildHistCalls(filesDir string) ([]histCall, [][]byte) {
 		9:  {"pal", webp.EncoderOptions{Lossless: true, Quality: 90, Method: 6}},
 		10: {"64x64", webp.EncoderOptions{Lossless: true, Quality: 80, Method: 4}},
 		11: {"64x80a", webp.EncoderOptions{Lossless: true, Quality: 50, Method: 3, Exact: true}},
+		12: {"128x96few", webp.EncoderOptions{Lossless: true, Quality: 90, Method: 4}},
+		13: {"96x96photo", webp.EncoderOptions{Lossless: true, Quality: 100, Method: 6}},
+		14: {"128x96other", webp.EncoderOptions{Lossless: true, Quality: 95, Method: 3}},
+		15: {"64x64noise", webp.EncoderOptions{Lossless: true, Quality: 90, Method: 4, Exact: true}},
+	}
+	callOf := func(i int) int { // position of encode spec i in the call alphabet (ids 12..24 and 28, 29 were taken first)
+		if i >= 15 {
+			return i + 15
+		}
+		if i >= 12 {
+			return i + 13
+		}
+		return i
 	}
 	for i := range encs {
 		if i != 1 && i != 6 { // 1 and 6 stay zero-valued literals (SNS/filter off)
 			encs[i].o = withDefaults(encs[i].o)
 		}
 	}
-	files := make([][]byte, len(encs))
-	calls := make([]histCall, 25)
+	files := make([][]byte, len(encs)+2)
+	calls := make([]histCall, 31)
 	for i, e := range encs {
 		i, e := i, e
 		if filesDir == "" {
@@ -105,7 +142,7 @@ func buildHistCalls(filesDir string) ([]histCall, [][]byte) {
 		if e.o.Lossless {
 			pool = ""
 		}
-		calls[i] = histCall{fmt.Sprintf("Encode#%d(%s,%s)", i, e.im, optName(e.o)), pool, func() (string, any) {
+		calls[callOf(i)] = histCall{fmt.Sprintf("Encode#%d(%s,%s)", callOf(i), e.im, optName(e.o)), pool, func() (string, any) {
 			o2 := e.o
 			var buf bytes.Buffer
 			if err := webp.Encode(&buf, img[e.im], &o2); err != nil {
@@ -194,6 +231,61 @@ func buildHistCalls(filesDir string) ([]histCall, [][]byte) {
 		}
 		return fmt.Sprintf("%d bytes %x", buf.Len(), hashBytes(buf.Bytes())), buf.Bytes()
 	}}
+	// hand-assembled files whose ALPH chunk is stored raw (no compression) with a prediction filter: the inverse filter
+	// runs over the chunk bytes. Still: webp.Decode; animation: DecodeBytes + DecodeFrames, whose frames alias the input.
+	nEnc := len(encs)
+	if filesDir == "" {
+		vp8b := findChunk(files[3], "VP8 ")
+		mk := func(filter int) []byte {
+			p := make([]byte, 1+40*24)
+			p[0] = byte(filter << 2)
+			for i := 1; i < len(p); i++ {
+				p[i] = byte(rng.Intn(7))
+			}
+			return p
+		}
+		files[nEnc] = wrapVP8X(40, 24, mk(1), vp8b)
+		m := mux.NewMuxer()
+		m.AddFrame(alphPrefixed(mk(3), vp8b), &mux.FrameOptions{Duration: 10})
+		m.AddFrame(alphPrefixed(mk(2), vp8b), &mux.FrameOptions{Duration: 20})
+		var ab bytes.Buffer
+		if err := m.Assemble(&ab); err != nil {
+			vx.Fatal2("C11: assembling the raw-ALPH animation: %v", err)
+		}
+		files[nEnc+1] = ab.Bytes()
+	} else {
+		for k := 0; k < 2; k++ {
+			b, err := os.ReadFile(fmt.Sprintf("%s/file%d.webp", filesDir, nEnc+k))
+			if err != nil {
+				vx.Fatal2("child: %v", err)
+			}
+			files[nEnc+k] = b
+		}
+	}
+	dec(29, "Decode(still with raw filtered ALPH)", files[nEnc], "lossy.Decoder")
+	animBytes := files[nEnc+1]
+	animOrig := hashBytes(animBytes)
+	calls[28] = histCall{"animation.DecodeBytes+DecodeFrames(raw filtered ALPH frames)", "", func() (string, any) {
+		a, err := animation.DecodeBytes(animBytes)
+		if err != nil {
+			return "error: " + err.Error(), nil
+		}
+		if err := a.DecodeFrames(); err != nil {
+			return "error: " + err.Error(), nil
+		}
+		s := ""
+		for _, f := range a.Frames {
+			if nr, ok := f.Image.(*image.NRGBA); ok {
+				s += fmt.Sprintf("%x:", hashNRGBA(nr))
+			} else {
+				s += fmt.Sprintf("%T:", f.Image)
+			}
+		}
+		if hashBytes(animBytes) != animOrig {
+			s += "INPUT-BYTES-MODIFIED"
+		}
+		return s, nil
+	}}
 	return calls, files
 }
 
@@ -270,7 +362,7 @@ func runChild(hist []int) []string {
 func checkC11(args []string) {
 	run := vx.NewRun("C11", "model_checking", args)
 	activeRun = run
-	run.Rule = "TLC enumerates all call histories up to MAXLEN over the 25-call alphabet of spec/Pool.tla (lossy/lossless encodes and decodes with equal and different macroblock grids, parallel and serial paths, partitions/segments/SNS/dither/alpha options, decodes that fail mid-picture, animation, mux) together with the predicted pool reuse; every history is executed in one process with empty pools at its start and GC off; each result is compared with the same call made FIRST in a fresh process; all previously returned images/byte slices are re-hashed after every later call. distinct = distinct histories in which the model predicts (and the hook counters confirm) at least one reuse"
+	run.Rule = "TLC enumerates all call histories up to MAXLEN over the 31-call alphabet of spec/Pool.tla (lossy/lossless encodes and decodes with equal and different macroblock grids, parallel and serial paths, partitions/segments/SNS/dither/alpha options, decodes that fail mid-picture, animation, mux) together with the predicted pool reuse; every history is executed in one process with empty pools at its start and GC off; each result is compared with the same call made FIRST in a fresh process; all previously returned images/byte slices are re-hashed after every later call. distinct = distinct histories in which the model predicts (and the hook counters confirm) at least one reuse"
 	run.Assumptions = []string{"a fresh child process executing the call first defines Fresh(args)", "sync.Pool may drop objects: a predicted reuse that did not happen is reported as not covered, never as a violation", "GOMAXPROCS fixed to 8"}
 	runtime.GOMAXPROCS(8)
 	calls, files := buildHistCalls("")
